@@ -311,7 +311,7 @@ func checkC18(p *Prog, r *Report) {
 					return false
 				}
 				c, idx, ok := p.ResolveCall(f, ft.X)
-				return ok && idx == 0 && p.CalleeName(c) == "ice.Agent.setGatheringState" && len(c.Args) == 2 && p.constName(c.Args[1]) == "GatheringStateGathering"
+				return ok && idx == 0 && p.CalleeName(c) == "ice.Agent.setGatheringState" && p.constName(p.argOfType(f, c, "ice.GatheringState")) == "GatheringStateGathering"
 			})
 			noErr := factListHas(facts, func(ft Fact) bool {
 				if ft.Op != "==" || !ft.Val || !p.isNilExpr(ft.Y) {
@@ -322,7 +322,7 @@ func checkC18(p *Prog, r *Report) {
 			})
 			r.Check(applied && noErr, "gatherCandidates: gathers only after the Gathering transition was applied", p.Pos(gi[0].Pos()), "dominated by applied && err == nil of setGatheringState(Gathering)", "a cycle that was cancelled before it started (or whose transition failed) still gathers: results of the old cycle mix with the new one")
 			for _, c := range p.CallsTo(f, false, "ice.Agent.setGatheringState") {
-				if len(c.Args) == 2 && p.constName(c.Args[1]) == "GatheringStateComplete" {
+				if p.constName(p.argOfType(f, c, "ice.GatheringState")) == "GatheringStateComplete" {
 					after := p.MustPrecede(f, c, func(n ast.Node) bool {
 						return p.nodeHasCall(n, func(x *ast.CallExpr) bool { return x == gi[0] })
 					})
